@@ -110,7 +110,7 @@ def run(ctx):
     phase = {}
     t0 = time.time()
     cfgs = configs(ctx)
-    with ProcessPoolExecutor(max_workers=NWORKERS) as ex:
+    with ProcessPoolExecutor(max_workers=NWORKERS, initializer=C.child_process_guard) as ex:
         results = list(ex.map(work, cfgs, chunksize=4))
     phase["real_runs_s"] = round(time.time() - t0, 1)
     t0 = time.time()
